@@ -2,6 +2,7 @@ package ice
 
 import (
 	"context"
+	"github.com/pion/stun/v3"
 	"io"
 	"net"
 	"sync"
@@ -12,6 +13,7 @@ import (
 func init() {
 	verifRegister("verifC13AbortInterleaved", verifC13AbortInterleaved)
 	verifRegister("verifC13PendingRead", verifC13PendingRead)
+	verifRegister("verifC13TCPSiblingWrite", verifC13TCPSiblingWrite)
 }
 
 func verifC13Refcount() {
@@ -253,5 +255,41 @@ func verifC13PendingRead() {
 		verifReach("sibling-close")
 		verifAssert(rerrA == nil && nA == 1, "closing-a-sibling-does-not-disturb-a-pending-read")
 	}
+	verifReach("done")
+}
+
+// C13 for the TCP mux: two handles of one ufrag share one tcpPacketConn and its
+// TCP connections. One user goes away the way candidateBase.abortIO does —
+// SetDeadline(now), then Close — and the sibling must stay fully usable: its
+// writes to the peer still go out.
+func verifC13TCPSiblingWrite() {
+	lst := &verifListener{ch: make(chan net.Conn, 1), addr: &net.TCPAddr{IP: net.IPv4(10, 0, 0, 1).To4(), Port: 4000}}
+	m := NewTCPMuxDefault(TCPMuxParams{Listener: lst, Logger: verifNopLogger{}, ReadBufferSize: 8})
+	localIP := net.IPv4(10, 0, 0, 1).To4()
+	hA, errA := m.GetConnByUfrag("u0", false, localIP)
+	hB, errB := m.GetConnByUfrag("u0", false, localIP)
+	verifAssert(errA == nil && errB == nil && verifUnderlyingTCP(hA) == verifUnderlyingTCP(hB), "two-handles-of-one-packet-conn")
+	msg, err := stun.Build(stun.BindingRequest, stun.NewTransactionIDSetter(verifTxID()), stun.NewUsername("u0:peer"), PriorityAttr(verifU32()))
+	verifAssert(err == nil, "build")
+	peer := &net.TCPAddr{IP: net.IPv4(20, 0, 0, 7).To4(), Port: 7007}
+	conn := &verifTCPConn{localTCP: &net.TCPAddr{IP: localIP, Port: 4000}}
+	conn.data, conn.failAt, conn.remote = verifFrame(msg.Raw), -1, peer
+	conn.hold = make(chan struct{})
+	m.handleConn(conn)
+	verifRunGoroutines()
+	payload := verifBytes(2)
+	n, werr := hB.WriteTo(payload, peer)
+	verifAssert(werr == nil && n == 2 && len(conn.written) == 1, "sibling-writes-before")
+	// user A leaves
+	how := verifChoice(2)
+	if how == 0 {
+		verifAssert(hA.SetDeadline(verifNow()) == nil, "SetDeadline-ok")
+		verifReach("abort-then-close")
+	}
+	verifAssert(hA.Close() == nil, "close-ok")
+	n, werr = hB.WriteTo(payload, peer)
+	verifAssertKnown(werr == nil && n == 2 && len(conn.written) == 2, "closing-one-handle(after-aborting-its-I/O)-leaves-the-sibling's-writes-working", "C13-tcp-write-deadline-shared", how == 0)
+	verifAssert(hB.Close() == nil, "close-ok")
+	verifRunGoroutines()
 	verifReach("done")
 }
